@@ -49,7 +49,7 @@ VARIABLES
     wsin,     \* per session: frames received on the websocket, not yet read by the handler
     wsw,      \* per session: writer task "none" | "new" | "run" | "done"
     wsgone,   \* per session: the websocket is closed (by the peer or by the server)
-    joiners,  \* tasks blocked in queue.join(): [s, kind, id]
+    joiners,  \* tasks blocked in queue.join(): [s, kind, id, rest]
     mon,      \* service task
     nreq      \* request / call counter (ids)
 
@@ -445,10 +445,77 @@ AppDisconnect(s) ==
        IN /\ nreq' = cid
           /\ IF d.blocks
              THEN /\ g' = [d.gn EXCEPT !.jzero[s] = FALSE]
-                  /\ joiners' = Append(joiners, [s |-> s, kind |-> "api", id |-> cid])
+                  /\ joiners' = Append(joiners, [s |-> s, kind |-> "api", id |-> cid, rest |-> <<>>])
              ELSE /\ g' = Out(d.gn, [k |-> "ret", cid |-> cid])
                   /\ UNCHANGED joiners
     /\ UNCHANGED <<now, polls, psleep, wsr, wsin, wsw, wsgone, mon>>
+
+(* server.disconnect() without a sid: every client in the table is closed, then the
+   table is replaced by an empty one.  The threaded server closes the clients one after
+   the other in insertion order, each close(wait=True) possibly blocking in join(); the
+   asyncio server starts all the close() coroutines together and waits for all of them. *)
+ImplConcurrentCloseAll == ImplJoinLatch        \* both are what asyncio does
+
+RECURSIVE SortedSeq(_)
+SortedSeq(S) == IF S = {} THEN <<>>
+                ELSE LET m == CHOOSE x \in S : \A y \in S : x <= y IN <<m>> \o SortedSeq(S \ {m})
+
+\* sequential: close in order up to the first close that blocks
+RECURSIVE CloseAllSeq(_, _)
+CloseAllSeq(gg, ss) ==
+    IF ss = <<>> THEN [gn |-> gg, blk |-> None, rest |-> <<>>]
+    ELSE LET s == Head(ss)
+         IN IF gg.ss[s].closed \/ gg.ss[s].closing THEN CloseAllSeq(gg, Tail(ss))
+            ELSE LET g1 == Close(gg, s, FALSE, "server")
+                 IN IF g1.ss[s].unf > 0 THEN [gn |-> g1, blk |-> s, rest |-> Tail(ss)]
+                    ELSE CloseAllSeq(g1, Tail(ss))
+
+\* concurrent: all are closed now; blk is the sequence of those whose join() blocks
+RECURSIVE CloseAllPar(_, _)
+CloseAllPar(gg, ss) ==
+    IF ss = <<>> THEN [gn |-> gg, blk |-> <<>>]
+    ELSE LET s == Head(ss)
+         IN IF gg.ss[s].closed \/ gg.ss[s].closing THEN CloseAllPar(gg, Tail(ss))
+            ELSE LET g1 == Close(gg, s, FALSE, "server")
+                     r == CloseAllPar(g1, Tail(ss))
+                 IN IF g1.ss[s].unf > 0 THEN [gn |-> r.gn, blk |-> <<s>> \o r.blk] ELSE r
+
+RECURSIVE ClearJzero(_, _)
+ClearJzero(gg, ss) == IF ss = <<>> THEN gg
+                      ELSE ClearJzero([gg EXCEPT !.jzero[Head(ss)] = FALSE], Tail(ss))
+
+AppDisconnectAll ==
+    /\ LET cid == nreq + 1
+           g0 == EnvStart(g)
+           order == SortedSeq(g0.table)
+       IN /\ nreq' = cid
+          /\ IF ImplConcurrentCloseAll
+             THEN LET r == CloseAllPar(g0, order)
+                  IN IF r.blk = <<>>
+                     THEN /\ g' = Out([r.gn EXCEPT !.table = {}], [k |-> "ret", cid |-> cid])
+                          /\ UNCHANGED joiners
+                     ELSE /\ g' = ClearJzero(r.gn, r.blk)
+                          /\ joiners' = joiners \o [i \in 1..Len(r.blk) |->
+                                  [s |-> r.blk[i], kind |-> "allc", id |-> cid, rest |-> <<>>]]
+             ELSE LET r == CloseAllSeq(g0, order)
+                  IN IF r.blk = None
+                     THEN /\ g' = Out([r.gn EXCEPT !.table = {}], [k |-> "ret", cid |-> cid])
+                          /\ UNCHANGED joiners
+                     ELSE /\ g' = [r.gn EXCEPT !.jzero[r.blk] = FALSE]
+                          /\ joiners' = Append(joiners, [s |-> r.blk, kind |-> "all", id |-> cid,
+                                                         rest |-> r.rest])
+    /\ UNCHANGED <<now, polls, psleep, wsr, wsin, wsw, wsgone, mon>>
+
+\* server.transport(sid)
+AppTransport(s) ==
+    /\ s \in UsedSids
+    /\ LET g0 == EnvStart(g)
+       IN IF s \notin g0.table THEN g' = Out(g0, [k |-> "keyerr", s |-> s])
+          ELSE IF g0.ss[s].closed
+          THEN g' = Out([g0 EXCEPT !.table = @ \ {s}], [k |-> "keyerr", s |-> s])
+          ELSE g' = Out(g0, [k |-> "transport", s |-> s,
+                             v |-> IF g0.ss[s].upged THEN "websocket" ELSE "polling"])
+    /\ UNCHANGED <<now, polls, psleep, wsr, wsin, wsw, wsgone, joiners, mon, nreq>>
 
 \* user session data: save a fresh token / read it back
 AppSaveSession(s, tok) ==
@@ -468,6 +535,30 @@ AppGetSession(s) ==
           THEN g' = Out([g0 EXCEPT !.table = @ \ {s}], [k |-> "keyerr", s |-> s])
           ELSE g' = Out(g0, [k |-> "sess", s |-> s, ud |-> g0.ss[s].ud])
     /\ UNCHANGED <<now, polls, psleep, wsr, wsin, wsw, wsgone, joiners, mon, nreq>>
+
+\* with server.session(sid) as d: read, then store tok  (get_session at entry, save_session
+\* at exit; KeyError at entry leaves the block unexecuted)
+AppSessionCtx(s, tok) ==
+    /\ s \in UsedSids
+    /\ LET g0 == EnvStart(g)
+       IN IF s \notin g0.table THEN g' = Out(g0, [k |-> "keyerr", s |-> s])
+          ELSE IF g0.ss[s].closed
+          THEN g' = Out([g0 EXCEPT !.table = @ \ {s}], [k |-> "keyerr", s |-> s])
+          ELSE g' = [Out(g0, [k |-> "sess", s |-> s, ud |-> g0.ss[s].ud]) EXCEPT !.ss[s].ud = tok]
+    /\ UNCHANGED <<now, polls, psleep, wsr, wsin, wsw, wsgone, joiners, mon, nreq>>
+
+\* an API call naming an id that no session has (never issued, or a near miss of a live one:
+\* prefix, case variant, extension): send is a silent no-op, disconnect returns, the
+\* others raise KeyError; nothing else changes
+ApiCalls == {"send", "get", "save", "transport", "sessctx", "disconnect"}
+AppUnknown(call) ==
+    /\ call \in ApiCalls
+    /\ LET g0 == EnvStart(g)
+       IN CASE call = "send" -> g' = g0 /\ UNCHANGED nreq
+            [] call = "disconnect" -> /\ nreq' = nreq + 1
+                                      /\ g' = Out(g0, [k |-> "ret", cid |-> nreq + 1])
+            [] OTHER -> g' = Out(g0, [k |-> "keyerr", s |-> 0]) /\ UNCHANGED nreq
+    /\ UNCHANGED <<now, polls, psleep, wsr, wsin, wsw, wsgone, joiners, mon>>
 
 -----------------------------------------------------------------------------
 (* Internal actions *)
@@ -527,13 +618,31 @@ PingFire(i) ==
 JoinReturn(i) ==
     /\ i \in 1..Len(joiners)
     /\ LET j == joiners[i]
+           ret == [k |-> "ret", cid |-> j.id]
        IN \* threading: join() re-checks the counter when it runs; asyncio: join() returns once
           \* the counter has reached zero, even if something was put since
           /\ g.ss[j.s].unf = 0 \/ (ImplJoinLatch /\ g.jzero[j.s])
-          /\ LET g1 == [g EXCEPT !.table = @ \ {j.s}]
-             IN g' = IF j.kind = "req" THEN Resp(g1, j.id, 400, <<>>)
-                     ELSE Out(g1, [k |-> "ret", cid |-> j.id])
-    /\ joiners' = RemoveAt(joiners, i)
+          /\ CASE j.kind = "req" ->
+                    /\ g' = Resp([g EXCEPT !.table = @ \ {j.s}], j.id, 400, <<>>)
+                    /\ joiners' = RemoveAt(joiners, i)
+               [] j.kind = "api" ->
+                    /\ g' = Out([g EXCEPT !.table = @ \ {j.s}], ret)
+                    /\ joiners' = RemoveAt(joiners, i)
+               [] j.kind = "all" ->
+                    \* the loop of disconnect() goes on with the next client of its snapshot
+                    LET r == CloseAllSeq(g, j.rest)
+                    IN IF r.blk = None
+                       THEN /\ g' = Out([r.gn EXCEPT !.table = {}], ret)
+                            /\ joiners' = RemoveAt(joiners, i)
+                       ELSE /\ g' = [r.gn EXCEPT !.jzero[r.blk] = FALSE]
+                            /\ joiners' = Append(RemoveAt(joiners, i),
+                                                 [s |-> r.blk, kind |-> "all", id |-> j.id,
+                                                  rest |-> r.rest])
+               [] j.kind = "allc" ->
+                    /\ joiners' = RemoveAt(joiners, i)
+                    /\ g' = IF \E k \in 1..Len(joiners) :
+                                  k # i /\ joiners[k].kind = "allc" /\ joiners[k].id = j.id
+                            THEN g ELSE Out([g EXCEPT !.table = {}], ret)
     /\ UNCHANGED <<now, polls, psleep, wsr, wsin, wsw, wsgone, mon, nreq>>
 
 (* ---- websocket handler (reader) and writer ---- *)
